@@ -157,6 +157,8 @@ def configs(tier, seed):
     cfgs = []
     for n in (1, 2, 3) if tier == "quick" else (1, 2, 3, 4):
         for k in KINDS:
+            if n == 4 and k.startswith("dense_pd_product"):
+                continue  # the zoo's parameter tables are 4 x 4 / 4 x 5
             cfgs.append({"kind": k, "n": n, "seed": seed, "block": False})
     # block compositions (tuple of block gradients), depth 2
     for combo in (("pos_diagonal", "dense_pd"), ("tri_factored_pd_lower", "softabs_1.0_generic"),
